@@ -123,6 +123,14 @@ def route_cases(thorough):
             for s in settings:
                 # the setting the route is supposed to carry: what was written, the default when absent
                 cases.append(dict(c, route=route, dfc_written=s, dfc=s if s is not None else "snake_case"))
+    # a container rule must win over the configured case whatever it is (seed C06-13): structs WITH rename_all,
+    # the setting coming from a -c file and from tauri.conf.json
+    ruled = [{"kind": "struct", "cattrs": [[["ra", "snake_case"]]], "items": fields(["user_id", "display_name", "a"])},
+             {"kind": "struct", "cattrs": [[["ra", "camelCase"]]], "items": fields(["user_id", "display_name"])}]
+    for c in ruled:
+        for route in ("cli-c", "cli-cwd") + (("build-tauri", "build-typegen") if thorough else ()):
+            for s in settings:
+                cases.append(dict(c, route=route, dfc_written=s, dfc=s if s is not None else "snake_case"))
     return cases
 
 
